@@ -121,6 +121,18 @@ func checkC04(w *World, r *Report) {
 	r.guard("R04.11", func() { c04ErrRune(w, r) })
 
 	// ---- R04.10 ----
+	r.Rule("R04.12", "token adjacency: every pair of tokens the must/when grammars accept next to each other (bigram set of the language, computed from the .y files) is allowed by the XPath 1.0 productions at token-class level — in particular '[' never follows '.' or '..'", 60)
+	r.guard("R04.12", func() { c04Bigrams(w, r) })
+
+	r.Rule("R04.13", "the leafref grammar's token language equals RFC 6020 path-arg up to 4-grams: the 2-, 3- and 4-gram sets of leafref.y and of the ABNF (transcribed as a grammar over the same tokens) are equal", 6)
+	r.guard("R04.13", func() { c04LeafrefLanguage(w, r) })
+
+	r.Rule("R04.14", "the must/when grammars accept only XPath 1.0 token shapes: their class-level 3- and 4-gram sets are subsets of those of the XPath 1.0 grammar (transcribed in the checker), apart from the listed, reviewed deviations", 4)
+	r.guard("R04.14", func() { c04XPathShapes(w, r) })
+
+	r.Rule("R04.15", "stray characters are rejected: the characters the tokeniser consumes silently — LexCommon's skip arm and the look-ahead helper isWhitespace — are exactly XPath ExprWhitespace {SP, TAB, CR, LF}", 2)
+	r.guard("R04.15", func() { c04Whitespace(w, r) })
+
 	r.Rule("R04.10", "number tokens: the characters LexNum collects are a subset of XPath Number's alphabet {0-9 .}", 1)
 	r.guard("R04.10", func() {
 		f := w.Method("xpath", "CommonLex", "LexNum")
